@@ -32,7 +32,7 @@ REQ = ("From RV Require Import Prelude.\nFrom Tensor Require Import Overlap.\n"
 THEOREMS = ["C09_clamp_resolves", "C09_index_range_is_python_slice", "C09_index_range_no_panic",
             "C09_slice_denotes", "C09_slice_ok_defined", "C09_slice_error", "C09_slice_release_mode",
             "C09_slice_copy_is_numpy", "C09_slice_copy_error", "C09_clip_dim_denotes",
-            "C09_append_denotes", "C09_append_error",
+            "C09_append_denotes", "C09_append_error", "C09_append_permuted_denotes",
             "C09_index_axis_denotes", "C09_index_axis_error", "C09_slice_axis_denotes", "C09_slice_axis_error",
             "C09_split_denotes", "C09_split_error",
             "C09_permuted_denotes", "C09_permuted_error", "C09_transposed_denotes",
@@ -50,7 +50,7 @@ def classify(case):
 
 
 def main(ctx):
-    ctx.rule = ("seeded random chains of <= 6 operations (18 kinds) on views of an arange storage, rank <= 4, sizes <= 5: sources are "
+    ctx.rule = ("seeded random chains of <= 6 operations (19 kinds) on views of an arange storage, rank <= 4, sizes <= 5: sources are "
                 "contiguous, offset, stepped, permuted, broadcast (stride 0) or arbitrarily strided; one chain in four comes from the "
                 "malformed/extreme stream (out-of-range axes/indices/ranges, zero and i64-extreme steps, invalid permutations, bad "
                 "broadcast/reshape targets); plus the exhaustive SliceRange scope size<=5 x start,end in -7..7 (end also absent) x "
